@@ -2,7 +2,9 @@ package main
 
 import (
 	"fmt"
+	"go/token"
 	"go/types"
+	"strings"
 
 	"golang.org/x/tools/go/ssa"
 )
@@ -14,7 +16,7 @@ func ruleC03Filter(cx *Ctx) {
 	cx.R.Rule(rule, 1, "nodes enumerated by the iterators (table range, eviction order) reach a yield / nodeToEntry only on the edge where IsAlive() is true and HasExpired(now) is false for that node, with now sampled in that iteration")
 	n2e := cx.P.Func("", "cache", "nodeToEntry")
 	eo := cx.need(rule, "", "cache", "evictionOrder")
-	if cx.need(rule, "", "cache", "nodes") == nil || eo == nil {
+	if eo == nil {
 		return
 	}
 	check := func(f *ssa.Function, c *ssa.Call, node ssa.Value) {
@@ -35,6 +37,23 @@ func ruleC03Filter(cx *Ctx) {
 			if invokeName(gc) == "HasExpired" && !g.Truth {
 				unexpired = true
 				nowArg = gc.Call.Args[0]
+			}
+		}
+		// the two tests may live in a predicate helper (isVisible(n, now)): its true edge establishes both
+		for _, g := range guardsAt(c.Block()) {
+			gc, ok := g.Cond.(*ssa.Call)
+			if !ok || !g.Truth || gc.Call.IsInvoke() {
+				continue
+			}
+			h := calleeOf(gc)
+			if h == nil || h.Pkg == nil || !strings.HasPrefix(h.Pkg.Pkg.Path(), modPath) {
+				continue
+			}
+			ni, ti, okH := liveHelper(origin(h))
+			args := gc.Call.Args
+			if okH && ni < len(args) && ti < len(args) && args[ni] == node {
+				alive, unexpired = true, true
+				nowArg = args[ti]
 			}
 		}
 		cx.R.Check(alive && unexpired, rule, funcName(f), "sink guarded", cx.P.where(c), fmt.Sprintf("the node reaches the API only when alive (%v) and unexpired (%v)", alive, unexpired))
@@ -122,4 +141,73 @@ func rangesOverNodes(cx *Ctx, f *ssa.Function, p *ssa.Parameter) bool {
 		}
 	})
 	return ok
+}
+
+// liveHelper: h returns true only when IsAlive() of its parameter ni is true and HasExpired(parameter ti) of it is false.
+func liveHelper(h *ssa.Function) (ni, ti int, ok bool) {
+	if h == nil || len(h.Blocks) == 0 {
+		return 0, 0, false
+	}
+	ni, ti = -1, -1
+	okAll, nret := true, 0
+	var trueOnly func(v ssa.Value, b *ssa.BasicBlock, gs []Guard, d int) bool
+	trueOnly = func(v ssa.Value, b *ssa.BasicBlock, gs []Guard, d int) bool {
+		// could v be true on this edge without both tests having been made?
+		if d > 4 {
+			return false
+		}
+		if k, isK := v.(*ssa.Const); isK {
+			if bv, isB := constBool(k); isB && !bv {
+				return true // false: nothing claimed
+			}
+		}
+		alive, unexp := false, false
+		note := func(c *ssa.Call, truth bool) {
+			if invokeName(c) == "IsAlive" && truth {
+				if i := paramIndexOf(c.Call.Value); i >= 0 {
+					ni, alive = i, true
+				}
+			}
+			if invokeName(c) == "HasExpired" && !truth {
+				if i := paramIndexOf(c.Call.Value); i >= 0 && len(c.Call.Args) == 1 {
+					if j := paramIndexOf(c.Call.Args[0]); j >= 0 {
+						ni, ti, unexp = i, j, true
+					}
+				}
+			}
+		}
+		for _, g := range gs {
+			if c, isC := g.Cond.(*ssa.Call); isC {
+				note(c, g.Truth)
+			}
+		}
+		// the value itself: x, !x
+		switch x := v.(type) {
+		case *ssa.Call:
+			note(x, true)
+		case *ssa.UnOp:
+			if c, isC := x.X.(*ssa.Call); isC && x.Op == token.NOT {
+				note(c, false)
+			}
+		case *ssa.Phi:
+			for i, e := range x.Edges {
+				if !trueOnly(e, x.Block().Preds[i], append(append([]Guard(nil), gs...), append(guardsOnEdge(x.Block().Preds[i], x.Block()), guardsAt(x.Block().Preds[i])...)...), d+1) {
+					return false
+				}
+			}
+			return true
+		}
+		return alive && unexp
+	}
+	allInstrs(h, func(in ssa.Instruction) {
+		r, isR := in.(*ssa.Return)
+		if !isR || len(r.Results) != 1 {
+			return
+		}
+		nret++
+		if !trueOnly(r.Results[0], r.Block(), guardsAt(r.Block()), 0) {
+			okAll = false
+		}
+	})
+	return ni, ti, okAll && nret > 0 && ni >= 0 && ti >= 0
 }
